@@ -1,5 +1,6 @@
 import ProductMD.Proofs.CINormal
 import ProductMD.Proofs.CIDistinct
+import ProductMD.Proofs.CIApi
 /-!
 # C01 — composeinfo survives a write/read cycle unchanged
 
@@ -317,5 +318,43 @@ theorem C01_keyed_by_uid_witness :
     let ci : ComposeInfo := { exCI with variants := [.mk k%"P" k%"P" k%"P" k%"p" k%"variant" [k%"x86_64"] [] none [kid k%"B", kid k%"P-B"]] }
     isOk (serialize ci) = true ∧ ¬ WellKeyed ci ∧ ¬ UidsDistinct ci ∧
       (ci.norm.variants.map fun v => v.kids.length) = [1] := by decide +kernel
+
+/-! ### the key convention is what the public API builds (tie to the arena model of C11, `Model/Forest.lean`) -/
+
+/-- **`WellKeyed` is established by `add()`.** Take ANY history of `add` calls from the empty `ComposeInfo` — any objects,
+any containers, accepted or refused calls, objects added twice, any order — in which the top-level calls use the default
+key (`ci.variants.add(v)`; `Variant.add` has no key parameter at all).  The forest the writer then walks (the arena state
+unfolded to any depth `f`; `X` = the paths / per-variant releases, which `add` never looks at) satisfies `WellKeyed`.
+With an explicit `variant_id` the statement is false (F29: `Variants.add(v, 'junk')`). -/
+theorem C01_api_wellkeyed (U : Nat → Forest.Attrs) (X : Nat → Extra) (fuel : Nat) (ops : List Forest.Op)
+    (hkey : ∀ o ∈ ops, o.c = none → o.key = none) (f : Nat) (compose : Compose) (release : Release) (base : Option BaseProduct) :
+    WellKeyed { compose, release, base, variants := forestOf U X (Forest.run U fuel ops) f } :=
+  forestOf_wellKeyed (invW_run U fuel ops) X f (run_top_keys U fuel ops hkey)
+
+/-- **The property for everything built through the API**: no hypothesis on the forest is left.  If the library agrees to
+write what a history of default-key `add` calls built, it is read back as its normal form and written again to the same
+document. -/
+theorem C01_api_roundtrip (U : Nat → Forest.Attrs) (X : Nat → Extra) (fuel : Nat) (ops : List Forest.Op)
+    (hkey : ∀ o ∈ ops, o.c = none → o.key = none) (f : Nat) (compose : Compose) (release : Release) (base : Option BaseProduct)
+    (j : PyVal) :
+    let ci : ComposeInfo := { compose, release, base, variants := forestOf U X (Forest.run U fuel ops) f }
+    serialize ci = .ok j → deserialize j = .ok ci.norm ∧ serialize ci.norm = .ok j := by
+  intro ci h
+  have hk := C01_api_wellkeyed U X fuel ops hkey f compose release base
+  exact ⟨C01_readback ci j hk h, C01_fixpoint ci j hk h⟩
+
+/-- non-vacuity: a history with a refused call (object 3 has a foreign arch) builds a depth-3 forest that is written -/
+def CI.exU : Nat → Forest.Attrs := fun i =>
+  [ { id := k%"A", uid := k%"A", name := k%"a", type := k%"variant", arches := [k%"x86_64", k%"i386"] },
+    { id := k%"B", uid := k%"A-B", name := k%"b", type := k%"optional", arches := [k%"x86_64"] },
+    { id := k%"C", uid := k%"A-B-C", name := k%"c", type := k%"addon", arches := [k%"x86_64"] },
+    { id := k%"X", uid := k%"A-X", name := k%"x", type := k%"variant", arches := [k%"ppc64le"] },
+    { id := k%"DE", uid := k%"D-E", name := k%"d", type := k%"variant", arches := [k%"s390x"] } ].getD i default
+def CI.exOps : List Forest.Op := [⟨none, 0, none⟩, ⟨some 0, 1, none⟩, ⟨some 0, 3, none⟩, ⟨some 1, 2, none⟩, ⟨none, 4, none⟩]
+def CI.exApiCI : ComposeInfo :=
+  { exCI with variants := forestOf exU (fun _ => ⟨[], none⟩) (Forest.run exU 50 exOps) 4 }
+
+example : (∀ o ∈ exOps, o.c = none → o.key = none) ∧ isOk (serialize exApiCI) = true ∧
+    (uidsL exApiCI.variants) = [k%"A", k%"A-B", k%"A-B-C", k%"D-E"] := by decide +kernel
 
 end PM
